@@ -22,6 +22,7 @@ from mingus.containers.note import Note
 from mingus.core import intervals, chords, progressions
 from mingus.containers.mt_exceptions import UnexpectedObjectError
 import six
+from copy import copy
 
 
 class NoteContainer(object):
@@ -86,7 +87,8 @@ class NoteContainer(object):
         """
         if hasattr(notes, "notes"):
             for x in notes.notes:
-                self.add_note(x)
+                # copy, so that both containers don't share their notes
+                self.add_note(copy(x))
             return self.notes
         elif hasattr(notes, "name"):
             self.add_note(notes)
